@@ -9,5 +9,3 @@ pub mod uf;
 pub mod stubs;
 #[cfg(kani)]
 mod c01_programs;
-#[cfg(kani)]
-mod c01_probe;
